@@ -14,8 +14,9 @@ void run_ct(ReplayCtx& ctx) {
   ZzPlain<ct>::cfgname() = "plain/" + c;
   replay_config<ZzPlain<ct>>(ctx);
   int n = 0;
-  for (const char* sched : {"inc", "dec", "mix"})
+  for (const char* sched : {"inc", "dec", "mix", "dinf"})
     for (const char* km : {"fresh", "simp"}) {
+      if (std::string(sched) == "dinf" && std::string(km) == "simp") continue;
       ZzCfg& g = zz_cfg();
       g = ZzCfg();
       g.sched = sched;
@@ -26,7 +27,7 @@ void run_ct(ReplayCtx& ctx) {
     }
   struct S { const char* sched; int D; double shortest; const char* km; };
   for (S s : {S{"inc", -1, 0, "fresh"}, S{"dec", -1, 0, "simp"}, S{"mix", -1, 0, "simp"}, S{"inc", 1, 0, "simp"},
-              S{"dec", 2, 0, "fresh"}, S{"mix", 1, 1, "fresh"}}) {
+              S{"dec", 2, 0, "fresh"}, S{"mix", 1, 1, "fresh"}, S{"dinf", -1, 0, "fresh"}}) {
     ZzCfg& g = zz_cfg();
     g = ZzCfg();
     g.sched = s.sched;
